@@ -301,6 +301,30 @@ func main() {
 			})
 		}
 	}
+	// comma-ok type assertions (v, ok := x.(T)) cannot panic: collect them first
+	okForms := map[token.Pos]bool{}
+	for _, d := range s.decls {
+		if d.Body == nil {
+			continue
+		}
+		ast.Inspect(d.Body, func(n ast.Node) bool {
+			switch v := n.(type) {
+			case *ast.AssignStmt:
+				if len(v.Lhs) == 2 && len(v.Rhs) == 1 {
+					if ta, ok := v.Rhs[0].(*ast.TypeAssertExpr); ok {
+						okForms[ta.Pos()] = true
+					}
+				}
+			case *ast.ValueSpec:
+				if len(v.Names) == 2 && len(v.Values) == 1 {
+					if ta, ok := v.Values[0].(*ast.TypeAssertExpr); ok {
+						okForms[ta.Pos()] = true
+					}
+				}
+			}
+			return true
+		})
+	}
 	// 3. sites
 	var declList []*ast.FuncDecl
 	for _, d := range s.decls {
@@ -402,8 +426,10 @@ func main() {
 				if v.Type == nil {
 					return true // type switch
 				}
-				// single-value form panics on mismatch; the comma-ok form is an assignment with 2 LHS (skipped below)
-				s.out.Panics = append(s.out.Panics, s.site(fn, "type-assert", v))
+				// the single-value form panics on mismatch; the comma-ok form does not
+				if !okForms[v.Pos()] {
+					s.out.Panics = append(s.out.Panics, s.site(fn, "type-assert", v))
+				}
 			case *ast.IndexExpr:
 				if t := info.TypeOf(v.X); t != nil {
 					switch u := t.Underlying().(type) {
@@ -424,31 +450,6 @@ func main() {
 			return true
 		})
 	}
-	// comma-ok type assertions are not panic sites: remove those that appear as the sole RHS of a 2-value assignment
-	okForms := map[token.Pos]bool{}
-	for _, d := range declList {
-		if d.Body == nil {
-			continue
-		}
-		ast.Inspect(d.Body, func(n ast.Node) bool {
-			switch v := n.(type) {
-			case *ast.AssignStmt:
-				if len(v.Lhs) == 2 && len(v.Rhs) == 1 {
-					if ta, ok := v.Rhs[0].(*ast.TypeAssertExpr); ok {
-						okForms[ta.Pos()] = true
-					}
-				}
-			case *ast.ValueSpec:
-				if len(v.Names) == 2 && len(v.Values) == 1 {
-					if ta, ok := v.Values[0].(*ast.TypeAssertExpr); ok {
-						okForms[ta.Pos()] = true
-					}
-				}
-			}
-			return true
-		})
-	}
-	_ = okForms
 	// 4. reachability (CHA) from the entry points
 	prog, _ := ssautil.AllPackages(pkgs, ssa.InstantiateGenerics)
 	prog.Build()
